@@ -57,6 +57,13 @@ def check_cov(xs, ys):
         p.append(f"sample_covar {rc.sample_covar}")
     rcm = RunningCovarianceMatrix(2)
     rcm.update_from_it(xs, ys)
+    if rcm.count != len(xs):
+        p.append(f"covariance matrix reports count {rcm.count} after {len(xs)} samples fed as one chunk")
+    rcm2 = RunningCovarianceMatrix(2)
+    for x, y in zip(xs, ys):
+        rcm2.update(x, y)
+    if rcm2.count != len(xs):
+        p.append(f"covariance matrix reports count {rcm2.count} after {len(xs)} samples fed one at a time")
     m = rcm.covar_matrix
     if not (close(m[0, 1], want, sc) and close(m[1, 0], want, sc) and close(m[0, 0], a.var(), sc) and close(m[1, 1], b.var(), sc)):
         p.append(f"covar_matrix {m.tolist()}")
